@@ -23,7 +23,7 @@ from mindsdb_sql.parser.dialects.mindsdb.lexer import MindsDBLexer
 from mindsdb_sql.parser.dialects.mindsdb.retrain_predictor import RetrainPredictor
 from mindsdb_sql.parser.dialects.mindsdb.finetune_predictor import FinetunePredictor
 from mindsdb_sql.parser.logger import ParserLogger
-from mindsdb_sql.parser.utils import ensure_select_keyword_order, JoinType, tokens_to_string, unescape_string
+from mindsdb_sql.parser.utils import ensure_select_keyword_order, JoinType, to_alias, tokens_to_string, unescape_string
 
 all_tokens_list = MindsDBLexer.tokens.copy()
 all_tokens_list.remove('RPAREN')
@@ -1255,9 +1255,9 @@ class MindsDBParser(Parser):
     def from_table_aliased(self, p):
         entity = p.from_table
         if hasattr(p, 'identifier'):
-            entity.alias = p.identifier
+            entity.alias = to_alias(p.identifier)
         if hasattr(p, 'dquote_string'):
-            entity.alias = Identifier(p.dquote_string)
+            entity.alias = to_alias(p.dquote_string)
         return entity
 
     # native query
@@ -1345,11 +1345,11 @@ class MindsDBParser(Parser):
         # if col.alias:
         #     raise ParsingException(f'Attempt to provide two aliases for {str(col)}')
         if hasattr(p, 'dquote_string'):
-            alias = Identifier(p.dquote_string)
+            alias = to_alias(p.dquote_string)
         elif hasattr(p, 'quote_string'):
-            alias = Identifier(p.quote_string)
+            alias = to_alias(p.quote_string)
         else:
-            alias = p.identifier
+            alias = to_alias(p.identifier)
         col.alias = alias
         return col
 
